@@ -19,7 +19,7 @@ RULE = (
     "with commands from the three priority classes, per request frame a gateway behaviour {accept at once, accept after a "
     "delay, raise} and an NCP behaviour {reply after d, reply after the timeout, never, reply twice, callback before the "
     "reply, callback after it}, and caller cancellations at generated offsets (while queued, inside send_data, while "
-    "awaiting the reply). Non-trivial = at least two callers overlapped and at least one of {timeout, duplicate reply, "
+    "awaiting the reply), optionally up to five transient listeners added and removed at generated instants. Non-trivial = at least two callers overlapped and at least one of {timeout, duplicate reply, "
     "cancellation, link failure, mixed priority classes} occurred; distinct by plan."
 )
 ASSUMPTIONS = [
@@ -113,6 +113,27 @@ async def scenario(loop, plan, w):
     ezsp.add_callback(lambda *a: w.cb_calls[0].append((loop.time(), a)))
     ezsp.add_callback(lambda *a: w.cb_calls[1].append((loop.time(), a)))
     w.injected_cbs = []
+    # transient listeners that come and go while traffic flows (what scans and other list commands do)
+    w.dyn = []
+    for j, (t_add, t_rm) in enumerate(plan.get("regs") or []):
+        d = {"calls": [], "added": None, "removed": None, "id": None}
+        w.dyn.append(d)
+
+        def _add(d=d):
+            d["id"] = ezsp.add_callback(lambda *a, d=d: d["calls"].append((loop.time(), a)))
+            d["added"] = loop.time()
+
+        def _rm(d=d):
+            if d["id"] is not None and d["removed"] is None:
+                d["removed"] = loop.time()
+                try:
+                    ezsp.remove_callback(d["id"])
+                except Exception as ex:  # judged below
+                    d["remove_exc"] = repr(ex)
+
+        loop.call_at(t_add, _add)
+        if t_rm is not None:
+            loop.call_at(t_rm, _rm)
     w.last_resp_seq = (plan.get("seq0", 0) - 1) % 256
     behs = plan["behaviours"]
     cb_id = cls.COMMANDS["stackStatusHandler"][0]
@@ -331,6 +352,20 @@ def check(plan) -> Result:
         dup_allow = sum(1 for f in frames if f["beh"]["ncp"] in ("twice", "late"))
         if len(other) > dup_allow:
             r.bad("C06:reply-leaked-to-callbacks", f"callback {idx}: {other[:3]} (allowed {dup_allow})")
+    for j, d in enumerate(w.dyn):
+        if d.get("remove_exc"):
+            r.bad("C06:remove-callback-raises", f"transient listener {j}: {d['remove_exc']}")
+        if d["added"] is None:
+            continue
+        want = [(ti, m) for ti, m in w.injected_cbs if d["added"] < ti - 1e-7 and (d["removed"] is None or ti < d["removed"] - 1e-7)]
+        maybe = [(ti, m) for ti, m in w.injected_cbs if abs(ti - d["added"]) <= 1e-7 or (d["removed"] is not None and abs(ti - d["removed"]) <= 1e-7)]
+        got = [(t, int(a[1][0])) for t, a in d["calls"] if a[0] == "stackStatusHandler"]
+        rest = [g for g in got if g not in maybe]
+        if rest != want:
+            r.bad("C06:callback-not-delivered-exactly-once:transient-listener",
+                  f"listener {j} registered {d['added']}..{d['removed']}: got {got}, injected while registered {want}; regs {plan.get('regs')}")
+        if want:
+            flags.add("transient-listener")
     if w.injected_cbs:
         flags.add("callback")
     # O6
@@ -385,7 +420,16 @@ def plans(draw, versions=(4, 7, 13)):
             c["cancel"] = draw(st.sampled_from([0.0005, 0.0042, 0.0518, 1.5001, 5.0001, 12.0001]))
         callers.append(c)
     behs = draw(st.lists(behaviour, min_size=0, max_size=n))
-    return {"v": v, "seq0": draw(st.sampled_from([0, 0, 250, 255])), "callers": callers, "behaviours": behs}
+    plan = {"v": v, "seq0": draw(st.sampled_from([0, 0, 250, 255])), "callers": callers, "behaviours": behs}
+    if draw(st.booleans()):
+        horizon = max(int(t), 4)
+        regs = []
+        for _ in range(draw(st.integers(1, 5))):
+            a = draw(st.integers(0, horizon))
+            life = draw(st.one_of(st.none(), st.integers(1, horizon + 2)))
+            regs.append([round(a * 0.01 + 0.00071, 6), None if life is None else round((a + life) * 0.01 + 0.00073, 6)])
+        plan["regs"] = regs
+    return plan
 
 
 @st.composite
@@ -402,6 +446,10 @@ def wrap_plans(draw, versions=(4, 7, 13)):
     behs = draw(st.lists(st.fixed_dictionaries({"gw": st.just("ok"), "gwd": st.just(0),
                                                "ncp": st.sampled_from(["reply", "reply", "reply", "twice", "cb-after"]),
                                                "d": st.just(0.007)}), min_size=n, max_size=n))
+    # a few requests near the start are never answered (their callers time out) or answered late: whatever they leave
+    # behind is still there when the sequence byte comes round again
+    for k in draw(st.lists(st.integers(0, 40), max_size=3, unique=True)):
+        behs[k] = dict(behs[k], ncp=draw(st.sampled_from(["never", "never", "late"])), d=9.987)
     return {"v": v, "seq0": draw(st.integers(0, 255)), "callers": callers, "behaviours": behs}
 
 
@@ -419,4 +467,4 @@ def run(ctx):
     quick = ctx.tier == "quick"
     versions = (4, 7, 13) if quick else tuple(range(4, 15))
     ctx.parallel(_worker, [(300, versions)] * 16 if quick else [(12000, versions)] * 16)
-    ctx.parallel(_worker_wrap, [(2, versions)] * 8 if quick else [(40, versions)] * 16)
+    ctx.parallel(_worker_wrap, [(3, versions)] * 16 if quick else [(40, versions)] * 16)
